@@ -359,6 +359,36 @@ func runScenario(d *driver, kind string) {
 			d.round(li2)
 			d.round(li2)
 		}
+	case "crashenum":
+		// systematic crash placement: history number h selects the crash position inside the round
+		// (h mod 12) and, for h >= 12, inside the recovery ((h/12) mod 10); base scenario alternates
+		// between a small tree and one that crosses the first tile boundary
+		h := d.enum
+		li := d.boot(0)
+		if (h/120)%2 == 1 {
+			d.submitMany(li, 255)
+		} else {
+			d.submitMany(li, 2)
+		}
+		d.round(li)
+		d.round(li)
+		d.submitMany(li, 3)
+		d.round(li)
+		d.crashWithin(li, h%12)
+		d.round(li)
+		if !d.alive(li) {
+			prev := li
+			li = d.newInstanceLike(prev)
+			if h >= 12 {
+				d.crashWithin(li, (h/12)%10)
+			}
+			li = d.restartWith(prev, li, true)
+		}
+		if li != nil && d.alive(li) {
+			d.submitMany(li, 2)
+			d.round(li)
+			d.round(li)
+		}
 	case "cache":
 		li := d.boot(0)
 		d.submitSome(li, 3)
